@@ -1018,6 +1018,7 @@ func init() {
 		results := make([][]opResult, len(hs))
 		errs := make([]error, len(hs))
 		parallel(len(hs), 32, func(i int) { results[i], errs[i] = stableHistory(hs[i], runGrpcHistory) })
+		settleDisturbed(hs, results, errs, runGrpcHistory)
 		for i, h := range hs {
 			emitGrpcHistory(o, h, results[i], errs[i])
 		}
